@@ -119,6 +119,9 @@ Proof.
   apply Forall_forall. intros pe Hin. apply in_map_iff in Hin. destruct Hin as [p [E _]]. subst pe. reflexivity.
 Qed.
 
+Lemma emit_to_n_fixed : forall n x pids act h l, mem_fixed x -> mem_fixed (emit_to_n x pids act h l n).
+Proof. induction n as [|n IH]; intros; cbn [emit_to_n]; [assumption|]. apply IH. apply emit_to_fixed. assumption. Qed.
+
 Lemma variadic_fixed : forall c x l args obs known x' r k', mem_fixed x ->
   x_variadic c x l args obs known = SOk x' r k' -> mem_fixed x'.
 Proof.
@@ -153,6 +156,8 @@ Proof.
   - apply finish_op_inv in H. subst. unfold mem_fixed in *. cbn [x_exp x_mem]. exact F.
   - destruct (nth_error (c_loggers c) l) as [[[[? ?] ?] ?]|]; [|discriminate].
     destruct (logger_enabled c l); apply finish_op_inv in H; subst; assumption.
+  - destruct (eat_active obs) as [[act rest]|]; [|discriminate]. apply finish_op_inv in H. subst.
+    destruct (logger_enabled c l); [apply emit_to_n_fixed|]; assumption.
 Qed.
 
 Lemma check_ops_fixed : forall c ops x obs known x' r k', forallb (fun o => negb (is_mut o)) ops = true -> mem_fixed x ->
